@@ -66,7 +66,13 @@ LEVEL_NOTE = ("Assumed (translator, trusted base): the value of a lazy property 
               "values_def (direct form), values_shift and values_filter_append (values multiplied by the gain) are "
               "proved for the scalar-gain instance only - that the product of frequency responses acts in one "
               "pad/FFT/crop pass is property C05.  The key-set machine flattens branches, so it is compared "
-              "as an over-approximation of the `_lazy_*` keys (exact on straight-line methods).  No theorem is partial.")
+              "as an over-approximation of the `_lazy_*` keys (exact on straight-line methods).  No theorem is partial.  "
+              "Hypothesis audit: `Admissible` excludes private-name assignments and constructor calls on live objects "
+              "(the property says 'public mutating operations'); `0 <= b/dt` in window_counts excludes negative buffers "
+              "(set_buffers raises ValueError: in the histories) and decreasing grids with buffers (values raises "
+              "ValueError: boundary probe; without buffers a decreasing grid evaluates correctly: probe); the no-op "
+              "branch of resample is skipped in the correspondence only (the flattened effect list has no branches) and "
+              "runs in the search; endpoints on or above the surface are sampled.")
 FUNCTION_POOL_NOTE = ("signal functions: three vectorised ones and three that accept scalar times only (math.*, a "
                       "branch on the sign of t, an explicit refusal) and raise TypeError / ValueError on arrays, "
                       "so that the one-at-a-time fallback of FunctionSignal.values runs with shifted origins")
@@ -132,13 +138,47 @@ def env():
 
 
 def lazy_names(obj):
-    """lazy properties of type(obj) by introspection (independent of the translator)"""
+    """lazy properties of type(obj), found behaviourally and without private identifiers of pyrex: a `property` of
+    the class whose getter closes over the function it wraps and over the documented cache attribute name
+    `_lazy_<property name>` (the attribute `lazy_property` promises to create on first access)"""
     out = []
     for n in dir(type(obj)):
         a = getattr(type(obj), n, None)
-        if isinstance(a, property) and a.fget is not None and a.fget.__name__ == "_lazy_property":
+        if not isinstance(a, property) or a.fget is None:
+            continue
+        cells = []
+        for c in (a.fget.__closure__ or ()):
+            try:
+                cells.append(c.cell_contents)
+            except ValueError:
+                pass
+        if any(isinstance(c, str) and c == "_lazy_" + n for c in cells) and any(callable(c) for c in cells):
             out.append(n)
     return sorted(out)
+
+
+def crash_origin(exc):
+    """'repo' when the innermost pyrex/harness frame of the traceback lies in the tree under test (pyrex code
+    failed on a valid call -> a failing input), 'harness' when it lies in the harness (a defect of the check)"""
+    import os
+    import traceback
+    repo = os.path.realpath(fw.REPO) + os.sep
+    here = os.path.realpath(os.path.dirname(os.path.dirname(os.path.abspath(__file__)))) + os.sep
+    for fr in reversed(traceback.extract_tb(exc.__traceback__)):
+        f = os.path.realpath(fr.filename)
+        if f.startswith(repo):
+            return "repo", "%s:%d %s" % (os.path.relpath(f, repo), fr.lineno, fr.name)
+        if f.startswith(here):
+            return "harness", "%s:%d %s" % (os.path.relpath(f, here), fr.lineno, fr.name)
+    return "harness", "?"
+
+
+def history_crashed(ctx, e):
+    where, at = crash_origin(e)
+    if where == "repo":
+        ctx.note("history crashed inside pyrex (%s): %r" % (at, e))
+    else:
+        ctx.run.note_broken("harness: history generator failed at %s: %r (not a failing input of pyrex)" % (at, e))
 
 
 def keyset(obj):
@@ -785,6 +825,9 @@ def make_tracer(run):
     kind = rng.choice(["SpecializedRayTracer", "SpecializedRayTracer", "BasicRayTracer", "UniformRayTracer",
                        "UniformRayTracer"] + (["LayeredRayTracer"] if E["LayeredRayTracer"] else []))
     a, b = rnd_point(rng, True), (rng.uniform(60, 400), rng.uniform(-40, 40), rng.uniform(-150, -20))
+    if rng.random() < 0.06:       # an endpoint outside the ice: no solutions, still no stale values
+        b = (b[0], b[1], rng.choice([5.0, 0.0]))
+        run.count("endpoint_on_or_above_surface")
     if rng.random() < 0.5:
         # float arrays owned by the caller (the constructors copy them; the caller may edit them later)
         a, b = np.array(a, dtype=float), np.array(b, dtype=float)
@@ -983,8 +1026,7 @@ def correspondence(run):
         try:
             (signal_history if sig else object_history)(ctx, run.rng.randint(3, maxlen))
         except Exception as e:
-            import traceback
-            ctx.note("history crashed: %r %s" % (e, traceback.format_exc()[-300:]))
+            history_crashed(ctx, e)
         for i in range(len(ctx.hist)):
             run.case(("hist", ctx.hist[0], tuple(ctx.hist[max(1, i - 2):i + 1]), i), nontrivial=i > 0,
                      sample={"history": ctx.hist[:12]})
@@ -1013,6 +1055,16 @@ def correspondence(run):
                     ok = False
                     run.note_broken("correspondence: reading %s.%s filled %s, outside the extracted lazy dependencies %s"
                                     % (tr.cls_name, n, extra, sorted(info["closure"].get(n, ()))))
+            # `method@new_signal` names the object created inside `method`; the local variable may be called
+            # differently in the source: use a table entry `method@<variable>`
+            toks = []
+            for t in tr.toks:
+                if t.startswith("call:") and t.endswith("@new_signal") and t[5:] not in info["methods"]:
+                    cands = [m for m in info["methods"] if m.startswith(t[5:].split("@")[0] + "@")]
+                    if cands:       # (several branches may each create the object: the entries are fresh-object
+                        t = "call:" + sorted(cands)[0]     #  effect lists without reads, any of them gives the same keys)
+                toks.append(t)
+            tr.toks = toks
             reqs.append("keys %s %s" % (tr.cls_name, " ".join(tr.toks)))
             wants.append((tr, list(ctx.hist)))
         if len(run.broken) > 6:
@@ -1053,8 +1105,7 @@ def search(run, deep):
         try:
             (signal_history if sig else object_history)(ctx, run.rng.randint(3, 25 if deep else 15))
         except Exception as e:
-            import traceback
-            ctx.note("history crashed: %r %s" % (e, traceback.format_exc()[-300:]))
+            history_crashed(ctx, e)
         for i in range(len(ctx.hist)):
             run.case(("search", ctx.hist[0], tuple(ctx.hist[max(1, i - 2):i + 1]), i), nontrivial=i > 0)
         if ctx.fail:
@@ -1062,6 +1113,7 @@ def search(run, deep):
                            observed=ctx.fail, expected="every lazy attribute equals the freshly constructed twin's",
                            what=ctx.fail)
     fixed_regressions(run)
+    boundary_probes(run)
 
 
 def fixed_regressions(run):
@@ -1088,6 +1140,35 @@ def fixed_regressions(run):
         run.fail_input("F14", {"history": ["UniformRayTracer", "read solutions", "max_reflections = 2", "read solutions"]},
                        observed="%d solutions (before the assignment: %d)" % (n1, n0), expected=len(tw.solutions),
                        what="assigning a class-level setting does not invalidate cached solutions")
+
+
+def boundary_probes(run):
+    """regions the histories keep away from: function-backed signals on a DECREASING grid (dt < 0)"""
+    E = env()
+    np, S = E["np"], E["S"]
+    f = E["funcs"][2]
+    s = S.FunctionSignal(np.array([3.0, 2.5, 2.0, 1.5, 1.0]), f)
+    v0 = np.array(s.values)
+    run.case(("boundary", "decreasing grid"), nontrivial=True)
+    if not np.allclose(v0, f(s.times), rtol=1e-12, atol=0):
+        run.fail_input("decreasing-grid", {"times": list(s.times)}, observed=list(v0), expected=list(f(s.times)),
+                       what="function-backed signal on a decreasing grid is not f(times)")
+    s.shift(0.5)
+    s *= 2.0
+    if not np.allclose(s.values, 2.0 * v0, rtol=1e-12, atol=0) or not np.allclose(s.values, twin_signal(s).values):
+        run.fail_input("decreasing-grid", {"times": list(s.times), "history": ["read", "shift 0.5", "*= 2", "read"]},
+                       what="stale or wrong values after shift / scaling on a decreasing grid")
+    s.set_buffers(leading=1.0)
+    try:
+        s.values
+        got = "values"
+    except ValueError:
+        got = "ValueError"
+    except Exception as e:      # noqa
+        got = type(e).__name__
+    if got != "ValueError":      # a negative point count must be refused, not evaluated on a wrong grid
+        run.fail_input("decreasing-grid", {"times": list(s.times), "leading_buffer": 1.0}, observed=got,
+                       expected="ValueError", what="leading buffer on a decreasing grid")
 
 
 def known_probes(run):
@@ -1141,7 +1222,7 @@ def replay(run, data):
         try:
             (signal_history if sig else object_history)(ctx, run.rng.randint(3, maxlen))
         except Exception as e:
-            ctx.note("history crashed: %r" % (e,))
+            history_crashed(ctx, e)
         if ctx.fail:
             run.fail_input("history", {"history": ctx.hist}, observed=ctx.fail, what=ctx.fail)
     search(run, True)
